@@ -22,7 +22,7 @@ RULE = (
     "column labels). For detectors four pipelines are run per case and compared with the canonical "
     "representation: fit(R).predict/transform/transform_scores(R); fit(canonical).predict(R); "
     "fit(R[:k]).update(R[k:]).predict(R); for scorers fit(R).evaluate(all admissible cuts). The full "
-    "representation grid (47 for p=1, incl. Fortran-ordered and strided arrays) is used for n=6, a reduced grid of 10 for the other lengths. "
+    "representation grid (57 for p=1, incl. Fortran-ordered and strided arrays and five further index kinds) is used for n=6, a reduced grid of 10 for the other lengths. "
     "Non-trivial = the canonical run reports at least one event (detectors) / all (scorers)."
 )
 ASSUMPTIONS = [
@@ -37,7 +37,10 @@ REPS_P1 = (
     + [("nd2", dt, "range", "default") for dt in ("float64", "int64")]
     + [("nd1", dt, "range", "default") for dt in ("float64", "int64")]
     + [("nd2F", "float64", "range", "default"), ("nd2S", "float64", "range", "default"), ("nd2S", "int64", "range", "default")]
+    + [("df", "float64", ik, "default") for ik in dets.INDEX_KINDS_EXTRA] + [("series", "int64", ik, "str") for ik in dets.INDEX_KINDS_EXTRA]
 )
+# scorers never look at the index: two index kinds suffice
+REPS_SCORER = [r for r in REPS_P1 if r[0].startswith("nd") or r[2] in ("range", "datetime")]
 REPS_P1_SMALL = [
     ("nd2", "float64", "range", "default"), ("nd1", "int64", "range", "default"), ("nd2", "int64", "range", "default"),
     ("series", "int64", "datetime", "str"), ("series", "float64", "offset", "default"),
@@ -301,7 +304,7 @@ def cases(tier, seed):
     for name in scorer_menu():
         for n in ((5,) if q else (5, 6)):
             for xs in itertools.product((0, 1, 3), repeat=n):
-                for rep in REPS_P1:
+                for rep in REPS_SCORER:
                     yield {"scorer": name, "x": list(xs), "rep": list(rep)}
         for flat in itertools.product(alph, repeat=8):
             x = [list(flat[2 * i:2 * i + 2]) for i in range(4)]
